@@ -6,9 +6,12 @@ Open Scope Z_scope.
 
 (* WALK, for every history and every filter oracle.  Whatever the chain does
    (growth and reorganisations of any depth between any two ChainSource
-   calls, also below the current block while the rescan is catching up),
+   calls, also below the current block while the rescan is catching up, and
+   while it still waits - rescanState.waitForBlocks - for the chain source
+   to reach its start height / to become current / to reach the end block),
    whatever filter and block fetches fail or answer, whenever Update calls
-   (with or without rewind) arrive and whenever the retry timer fires: if
+   (with or without rewind, also during that wait) arrive, whenever the
+   retry timer fires and whenever the quit channel is closed: if
    block hashes do not collide, the callbacks the rescan delivered form a
    valid walk from its start block — every connected block is a child, one
    higher, of the block the caller was last told is current, every disconnect
@@ -36,6 +39,7 @@ Print Assumptions C09_walk_decl.
 Definition f10_evs : list ev :=
   [EvExtend 2 100 []; EvExtend 3 100 []; EvExtend 4 100 [];
    EvStart {| cstart := 0; cstartT := 0; cend := 0; caddrs := []; cinputs := [] |};
+   TCall ROk; TCall ROk;            (* the two BestBlock calls of waitForBlocks: nothing to wait for *)
    TCall ROk; TCall ROk; TCall ROk; TCall ROk; TCall ROk; TCall ROk;
    EvRollback; EvExtend 5 100 []; EvExtend 6 100 [];
    TCall ROk; TCall ROk; TCall ROk; TCall ROk; TCall ROk; TCall ROk; TCall ROk]%N.
@@ -51,15 +55,19 @@ Proof. vm_compute. split; reflexivity. Qed.
    negatives (a watched script that occurs among the output scripts or spent
    scripts of the block is matched; false positives are allowed), whatever
    the chain does, whatever fetches fail, whenever Update calls (adding
-   addresses or inputs, with or without rewind) arrive and whenever the retry
-   timer fires: if block hashes do not collide, every outpoint has one script
+   addresses or inputs, with or without rewind) arrive - while the rescan
+   walks, follows notifications, or still waits in waitForBlocks, in every
+   position relative to the block notifications of that wait - and whenever
+   the retry timer fires: if block hashes do not collide, every outpoint has one script
    (inputs of blocks and watched inputs given by the caller carry the script
    of the outpoint they name) and the filter fetch of the catch-up branch was
    never answered "hash not found" (ghost flag g_nf: rescan.go then announces
    the block without looking at it), then every connected callback carries
    exactly the transactions of that block that pay an address watched at that
    moment or spend an outpoint watched at that moment — the addresses and
-   inputs given at Start, added by every Update call that had returned, and
+   inputs given at Start, added by every Update call that had returned
+   (observation [orecv]: the call returned nil; this includes every update
+   accepted by the select of waitForBlocks before the walk began), and
    every output that an earlier callback of this rescan found paying a watched
    address, rewinds included — or carries nothing while no connected block has
    been later than the start time.  [complete_ok] is the monitor that the
@@ -85,6 +93,41 @@ Theorem C09_holds_unless : forall fmatch,
   holds gid gtime (combine evs (snd r)) = true.
 Proof. exact holds_unless. Qed.
 Print Assumptions C09_holds_unless.
+
+(* UPDATES ARE IN EFFECT, for every history.  Under the hypotheses of
+   C09_complete_unless: whenever the rescan is alive and not in the middle of
+   a pass over the update queue of waitForBlocks (blocked in a GetBlockHeader
+   call of a rewind started by that pass), the addresses and outpoints its
+   watch state holds are, as sets, exactly those the specification counts as
+   watched - the items given at Start, the items of EVERY Update call that
+   has returned nil, wherever the rescan was when it received it (in the
+   select of waitForBlocks before the first notification, between two
+   notifications, right before the notification that ends the wait, in the
+   drain loop of the catch-up branch, in the select of the current branch),
+   and the outputs found paying watched addresses.  In particular nothing
+   accepted during the wait is dropped when the wait ends.  ([weq]: same
+   members; waitForBlocks applies its whole queue again after every update
+   and every notification that does not end the wait, so the code's lists
+   hold entries several times.) *)
+Theorem C09_updates_in_effect_unless : forall fmatch,
+  (forall wl b sc, In sc wl -> In sc (block_scripts b) -> fmatch wl b = true) ->
+  forall gid gtime evs,
+  let r := run fmatch (init gid gtime) evs in
+  let s := fst r in
+  let m := mon_final (mon0 gid gtime) (combine evs (snd r)) in
+  g_coll (gf s) = false -> g_nf (gf s) = false ->
+  scripts_ok evs ->
+  pc s <> PDone -> pc s <> PDead -> pc s <> PExit ->
+  (forall t ph, pc s <> PRew t (UWait ph)) ->
+  weq (mwatch m) (proj_watch (w s)) /\ mpend m = pend s.
+Proof. exact watch_is_spec_scripts. Qed.
+Print Assumptions C09_updates_in_effect_unless.
+
+(* relevance depends on the members of the watch state only *)
+Theorem C09_scan_members_only : forall txs x y, weq x y ->
+  fst (scan x txs) = fst (scan y txs) /\ weq (snd (scan x txs)) (snd (scan y txs)).
+Proof. exact scan_weq. Qed.
+Print Assumptions C09_scan_members_only.
 
 (* the two facts about matching the invariant rests on: what
    extractBlockMatches delivers for a fetched block, and the watch state it
@@ -123,6 +166,7 @@ Definition t2 : tx := {| txid := 102; tins := [((101, 0), 7)]; touts := [3] |}%N
 Definition nv_evs : list ev :=
   [EvExtend 2 100 []; EvExtend 3 200 [t1];
    EvStart {| cstart := 0; cstartT := 50; cend := 0; caddrs := [7%N]; cinputs := [] |};
+   TCall ROk; TCall ROk;                            (* waitForBlocks twice: nothing to wait for *)
    TCall ROk; TCall ROk; TCall ROk;                 (* block 2, filter: no match *)
    TCall ROk; TCall ROk; TCall ROk; TCall ROk;      (* block 3, filter, block: t1 *)
    TCall ROk; TCall ROk;                            (* best, subscribe *)
@@ -167,3 +211,119 @@ Example C09_nonvacuous_false_positives :
   g_coll (gf (fst r)) = false /\ g_nf (gf (fst r)) = false /\
   holds 1 0 (combine (nv_evs ++ [TCall ROk; TCall ROk]) (snd r)) = true.
 Proof. split; [reflexivity|]. vm_compute. repeat split; reflexivity. Qed.
+
+(* The waiting phase.  The chain source is not current when the rescan
+   starts (start block 3 at height 2, the tip): the second waitForBlocks
+   subscribes and waits.  Updates arrive in every position: one parked while
+   Subscribe runs (received on arrival at the select), one before the first
+   notification, one with a rewind between two notifications (block 3 is
+   disconnected, a GetBlockHeader call), one right before the notification
+   that ends the wait (the chain source has become current).  The walk then
+   starts at block 2 and delivers the transactions paying the addresses /
+   spending the outpoint added by each of the four updates, and the spend of
+   an output found on the way. *)
+Definition wa : tx := {| txid := 201; tins := [((900, 0), 2)]; touts := [7] |}%N.
+Definition wb : tx := {| txid := 202; tins := [((901, 0), 2)]; touts := [8] |}%N.
+Definition wc : tx := {| txid := 203; tins := [((950, 1), 4)]; touts := [3] |}%N.
+Definition wd : tx := {| txid := 204; tins := [((902, 0), 2)]; touts := [9] |}%N.
+Definition we : tx := {| txid := 205; tins := [((204, 0), 9)]; touts := [3] |}%N.
+Definition wait_evs : list ev :=
+  [EvExtend 2 100 []; EvExtend 3 200 [];
+   EvCurrent false;
+   EvStart {| cstart := 2; cstartT := 0; cend := 0; caddrs := []; cinputs := [] |};
+   TCall ROk;                       (* BestBlock: the start height is reached *)
+   TCall ROk;                       (* BestBlock: not current, no end block: Subscribe(2) *)
+   EvUpdate {| uaddrs := [7%N]; uinputs := []; urewind := 0 |};
+   TCall ROk;                       (* Subscribe returns, the parked update is received *)
+   EvUpdate {| uaddrs := [8%N]; uinputs := []; urewind := 0 |};
+   EvExtend 4 300 [wa; wb];
+   TRecvNtfn;                       (* block 4: still not current; the queue is applied again *)
+   EvUpdate {| uaddrs := []; uinputs := [((950, 1), 4)]%N; urewind := 1 |};
+   TCall ROk;                       (* GetBlockHeader(parent) of the rewind *)
+   EvExtend 5 400 [wc];
+   TRecvNtfn;
+   EvCurrent true;
+   EvUpdate {| uaddrs := [9%N]; uinputs := []; urewind := 0 |};
+   EvExtend 6 500 [wd];
+   TRecvNtfn;                       (* block 6: current now, the wait ends *)
+   TCall ROk; TCall ROk; TCall ROk;
+   TCall ROk; TCall ROk; TCall ROk; TCall ROk;
+   TCall ROk; TCall ROk; TCall ROk; TCall ROk;
+   TCall ROk; TCall ROk; TCall ROk; TCall ROk;
+   TCall ROk; TCall ROk;
+   EvExtend 7 600 [we]; TRecvNtfn; TCall ROk; TCall ROk; TCall ROk]%N.
+
+Example C09_wait_nonvacuous :
+  let r := run matches (init 1 0) wait_evs in
+  g_coll (gf (fst r)) = false /\ g_nf (gf (fst r)) = false /\
+  holds 1 0 (combine wait_evs (snd r)) = true /\
+  map orecv (snd r) =
+    [false; false; false; false; false; false; false; true; true; false; false; true; false;
+     false; false; false; true; false; false; false; false; false; false; false; false; false;
+     false; false; false; false; false; false; false; false; false; false; false; false; false;
+     false; false] /\
+  callbacks (combine wait_evs (snd r)) =
+    [CbDisc 3 2 2; CbConn 3 2 2 []; CbConn 4 3 3 [201; 202]; CbConn 5 4 4 [203];
+     CbConn 6 5 5 [204]; CbConn 7 6 6 [205]]%N /\
+  pc (fst r) = PSelect.
+Proof. vm_compute. repeat split; reflexivity. Qed.
+
+(* the shape of the seeded change this phase was added for: an update
+   accepted by the select of waitForBlocks with no further notification
+   before the one that ends the wait; the block after the wait pays the
+   added address and is delivered with that transaction.  The second
+   history ends the wait by reaching the end block (the chain source never
+   becomes current), the third waits for the start height after a rollback
+   (first waitForBlocks). *)
+Definition wp : tx := {| txid := 301; tins := [((900, 0), 2)]; touts := [7] |}%N.
+Definition seedshape_evs : list ev :=
+  [EvExtend 2 100 []; EvCurrent false;
+   EvStart {| cstart := 1; cstartT := 0; cend := 0; caddrs := []; cinputs := [] |};
+   TCall ROk; TCall ROk; TCall ROk;
+   EvUpdate {| uaddrs := [7%N]; uinputs := []; urewind := 0 |};
+   EvCurrent true; EvExtend 3 200 []; TRecvNtfn;
+   TCall ROk; TCall ROk;            (* block 3 is announced: BestBlock, header (watch list non-empty: filter) *)
+   TCall ROk; TCall ROk; TCall ROk;
+   EvExtend 4 300 [wp]; TRecvNtfn; TCall ROk; TCall ROk; TCall ROk]%N.
+Example C09_wait_update_before_last_ntfn :
+  let r := run matches (init 1 0) seedshape_evs in
+  holds 1 0 (combine seedshape_evs (snd r)) = true /\
+  callbacks (combine seedshape_evs (snd r)) = [CbConn 3 2 2 []; CbConn 4 3 3 [301]]%N.
+Proof. vm_compute. split; reflexivity. Qed.
+
+Definition endwait_evs : list ev :=
+  [EvExtend 2 100 []; EvExtend 3 200 []; EvExtend 4 250 []; EvCurrent false;
+   EvStart {| cstart := 1; cstartT := 0; cend := 3; caddrs := []; cinputs := [] |};
+   EvRollback; EvRollback;          (* blocks 4 (the end block) and 3 leave the chain before BestBlock answers *)
+   TCall ROk; TCall ROk; TCall ROk; (* height 1 >= 1; not current, best 1 < 3: Subscribe(1) *)
+   EvExtend 5 300 []; TRecvNtfn;    (* height 2: the wait goes on *)
+   EvUpdate {| uaddrs := [7%N]; uinputs := []; urewind := 0 |};
+   EvExtend 6 400 [wp]; TRecvNtfn;  (* height 3 = end height: the wait ends *)
+   TCall ROk; TCall ROk; TCall ROk;
+   TCall ROk; TCall ROk; TCall ROk; TCall ROk]%N.
+Example C09_wait_for_end_block :
+  let r := run matches (init 1 0) endwait_evs in
+  holds 1 0 (combine endwait_evs (snd r)) = true /\
+  callbacks (combine endwait_evs (snd r)) = [CbConn 5 2 2 []; CbConn 6 5 3 [301]]%N /\
+  pc (fst r) = PDone.
+Proof. vm_compute. repeat split; reflexivity. Qed.
+
+Definition startwait_evs : list ev :=
+  [EvExtend 2 100 []; EvExtend 3 200 [];
+   EvStart {| cstart := 2; cstartT := 0; cend := 0; caddrs := []; cinputs := [] |};
+   EvRollback;                      (* the tip (the start block) leaves the chain: best 1 < start 2 *)
+   TCall ROk; TCall ROk;            (* BestBlock, Subscribe(1) *)
+   EvUpdate {| uaddrs := [7%N]; uinputs := []; urewind := 0 |};
+   EvExtend 4 300 [wp]; TRecvNtfn;  (* height 2: the start height is reached, first wait ends *)
+   TCall ROk;                       (* second waitForBlocks: current *)
+   TCall ROk; TCall ROk;            (* walk: best 2 < 3: Subscribe(2), current *)
+   EvExtend 5 400 []; TRecvNtfn;    (* block 5 does not build on the stale block 3 *)
+   TCall ROk; TCall ROk; TCall ROk; (* BestBlock, header at 3 (not a child), parent of 3: block 2 *)
+   TCall ROk; TCall ROk; TCall ROk; TCall ROk;
+   TCall ROk; TCall ROk; TCall ROk]%N.
+Example C09_wait_for_start_height :
+  let r := run matches (init 1 0) startwait_evs in
+  holds 1 0 (combine startwait_evs (snd r)) = true /\
+  callbacks (combine startwait_evs (snd r)) =
+    [CbDisc 3 2 2; CbConn 4 2 2 [301]; CbConn 5 4 3 []]%N.
+Proof. vm_compute. repeat split; reflexivity. Qed.
